@@ -81,6 +81,25 @@ class HEvent:
         return self.flag
 
 
+class _RecLogger:
+    """Stands in for the engine.io logger: records the exceptions that
+    engine.io's handler wrapper contained (logger.exception)."""
+
+    def __init__(self, h):
+        self.h = h
+
+    def exception(self, msg, *a, **k):
+        import sys
+        self.h.swallowed.append((msg, sys.exc_info()[1]))
+
+    def _noop(self, *a, **k):
+        pass
+    debug = info = warning = error = critical = log = _noop
+
+    def isEnabledFor(self, lvl):
+        return False
+
+
 class ServerHarness:
     def __init__(self, aio=False, bg='inline', loop=None, server=None,
                  **kwargs):
@@ -106,6 +125,8 @@ class ServerHarness:
         self.on_wait = None
         self.transports = []
         self.eio.start_service_task = False
+        self.swallowed = []     # exceptions engine.io contained and logged
+        self.eio.logger = _RecLogger(self)
         self.eio.start_background_task = self._start_bg
         if not aio:
             self.eio.create_event = lambda *a, **k: HEvent(self)
